@@ -135,6 +135,13 @@ def check_conservation(text, leaves, spans, ws, layout="ws"):
     return probs
 
 
+def _ws_of(cfg):
+    """The layout characters of a configuration (ws option; default parglare's)."""
+    if "ws" in cfg["opts"]:
+        return cfg["opts"]["ws"] or ""
+    return WS
+
+
 def _mk(g, table, cfg, recovery):
     from parglare import GLRParser, Parser
 
@@ -404,7 +411,8 @@ def child_parses(spec, jobs):
                     # conservation for custom strategies too (injected leaves are empty)
                     tp, leaves = check_tree(res, text, start_fqn, True)
                     if not tp:
-                        cp = check_conservation(text, leaves, spans, WS, spec.get("layout"))
+                        cp = check_conservation(text, leaves, spans, _ws_of(cfg),
+                                                spec.get("layout"))
                         if cp:
                             rep.setdefault("class", "conservation")
                         rep["probs"] += cp
@@ -426,7 +434,8 @@ def child_parses(spec, jobs):
                             rep.setdefault("class", "tree")
                         rep["probs"] += tp[:4]
                         if cfg["kind"] == "lr" and consume and not tp and not sp:
-                            cp = check_conservation(text, leaves, spans, WS, spec.get("layout"))
+                            cp = check_conservation(text, leaves, spans, _ws_of(cfg),
+                                                    spec.get("layout"))
                             if cp:
                                 rep.setdefault("class", "conservation")
                             rep["probs"] += cp
@@ -506,6 +515,10 @@ def gen_run(rng, tier):
     kinds = [k for k in pool.DAMAGE_KINDS if rng.random() < 0.7] or ["junk"]
     modes = ["default", "default", "default", "skip", "pureskip", "inject", "mixed", "giveup"]
     spec["reuse"] = reuse
+    if sc["family"] in ("amb", "random", "nullable", "unprod") and sc["layout"] == "ws":
+        for c in cfgs:
+            if rng.random() < 0.3:
+                c["opts"]["ws"] = rng.choice([None, None, " "])
     if sc.get("dynamic"):
         for c in cfgs:
             c["filter"] = rng.choice(["prec", "accept", "none"])
@@ -532,7 +545,15 @@ def gen_run(rng, tier):
             text = pool.layout_tokens(rng, dt, sc["layout"], fancy=0.2)
             if "trunc_char" in fired and text:
                 text = text[: rng.randrange(len(text))]
-        job = {"cfg": rng.choice(cfgs), "input": text, "clean": clean,
+        cfg = rng.choice(cfgs)
+        if "ws" in cfg["opts"]:
+            # ws=None (significant whitespace / non-textual input) or a reduced ws
+            # set: single-letter token families need no separators at all
+            drop = WS if cfg["opts"]["ws"] is None else "".join(
+                c for c in WS if c not in cfg["opts"]["ws"])
+            text = "".join(c for c in text if c not in drop)
+            clean = "".join(c for c in clean if c not in drop)
+        job = {"cfg": cfg, "input": text, "clean": clean,
                "recovery": rng.choice(modes), "peer_seed": rng.getrandbits(32),
                "faults": fired}
         if reuse and rng.random() < 0.25:
